@@ -49,6 +49,15 @@ func corpus() []witness {
 		{"divide-int-by-zero-count", F("divide", I(7), F("count", F("collection"))), "-"},
 		{"zero-collection", F("accessible-routes", FID(pb.FeatureType_FeatureTypeInvalid, "openstreetmap.org/node", 343), QL(QAll()), Fl(-1), Coll([]*Node{Str("maxspeed")}, []*Node{I(1)})), "-"},
 		{"zero-collection-count", F("count", F("accessible-routes", osmNode(999), QL(QAll()), Fl(100), Coll(nil, nil))), "-"},
+		// ---- guards that exist; kept as witnesses for mutations of them
+		{"collection-literal-fewer-values", F("count", Coll([]*Node{I(0), I(1)}, []*Node{I(5)})), "-"},
+		{"collection-literal-fewer-keys", F("count", Coll([]*Node{I(0)}, []*Node{I(5), I(6)})), "-"},
+		{"no-root", F("add-ints", I(1), I(2)), "no-root"},
+		{"extra-argument", F("add-ints", I(1), I(2), I(3)), "-"},
+		{"too-many-arguments-to-lambda", C(L(nil, I(5)), I(1)), "-"},
+		{"too-many-arguments-to-lambda-2", C(L([]string{"a"}, F("add-ints", S("a"), I(1))), I(1), I(2)), "-"},
+		{"too-few-arguments-to-lambda", C(C(L([]string{"a", "b"}, F("add-ints", S("a"), S("b"))), I(1)), I(2)), "-"},
+		{"too-many-arguments-to-partial", C(F("add-ints", I(1)), I(2), I(3)), "-"},
 		// ---- recorded findings (KNOWN_FINDINGS.txt), one or two witnesses per class
 		{"finding-geometry-kind-join", F("join", Point(p0), Point(pt{})), "-"},
 		{"finding-geometry-kind-length", F("length", Area(nil)), "-"},
